@@ -53,8 +53,30 @@ fn main() {
             match std::panic::catch_unwind(|| props::run_job(&job)) {
                 Ok(res) => std::fs::write(&args[3], serde_json::to_vec(&res).unwrap()).expect("write result"),
                 Err(_) => {
+                    let msg = node::last_panic();
+                    // A panic that unwound out of the job and started in the code under test (server or SDK
+                    // sources, e.g. the SDK decoder choking on a server response inside a harness task) is a
+                    // finding about that code, not a failure of the machinery.
+                    let environmental = ["Failed to get the local address", "Failed to bind", "Address already in use", "Too many open files", "Cannot allocate memory", "No space left", "Resource temporarily unavailable"].iter().any(|m| msg.contains(m));
+                    if msg.contains("/repo/") && !environmental {
+                        let crumb = std::env::var("VX_BREADCRUMB").ok().and_then(|p| std::fs::read_to_string(p).ok()).unwrap_or_default();
+                        let loc: String = msg.lines().next().unwrap_or("").replace("panicked at ", "").split(':').take(2).collect::<Vec<_>>().join(":");
+                        let res = run::JobResult {
+                            executions: 1,
+                            violations: vec![run::Violation {
+                                property: job.prop.clone(),
+                                key: format!("{}:panic-in-code-under-test:{}", job.prop, loc.trim_start_matches("/repo/")),
+                                message: format!("the code under test panicked ({}) while executing {}", msg.replace('\n', " | "), crumb.chars().take(600).collect::<String>()),
+                                replay: serde_json::json!({"kind": "died", "case": crumb, "job": job.spec}),
+                            }],
+                            capped: Some("job cut short by a panic in the code under test (reported as a violation)".into()),
+                            ..Default::default()
+                        };
+                        std::fs::write(&args[3], serde_json::to_vec(&res).unwrap()).expect("write result");
+                        return;
+                    }
                     // the panic hook is silent in job mode (server panics are counted, not printed)
-                    eprintln!("harness panicked: {}", node::last_panic());
+                    eprintln!("harness panicked: {msg}");
                     std::process::exit(101);
                 }
             }
